@@ -209,8 +209,9 @@ c03_env.FakeLock.acquire = _logged_acquire
 class Device:
     """Firmware side of the connection sequence, written from the CRTP protocol: link-service source echo, platform
     protocol version, log reset + TOC, memory count (0), param TOC + extended type, param read, ping echo."""
-    def __init__(self, version=10, log=None, params=None, values=None):
+    def __init__(self, version=10, log=None, params=None, values=None, ow_mem=False):
         self.version = version
+        self.ow = _ow_image() if ow_mem else None
         self.log = TocDevice(5, log if log is not None else [Entry(7, b'g', b'x')], crc=0x11112222)
         self.par = TocDevice(2, params if params is not None else [Entry(0x08, b'p', b'a')], crc=0x33334444)
         self.values = values or {}
@@ -229,7 +230,12 @@ class Device:
         if port == 5:
             return [self.log.answer(pk)]
         if port == 4 and ch == 0 and d[:1] == [1]:
-            return [packet(4, 0, [1, 0])]                  # no memories
+            return [packet(4, 0, [1, 1 if self.ow else 0])]     # number of memories
+        if port == 4 and ch == 0 and d[:1] == [2] and self.ow:   # details of memory d[1]: id, type 1-wire, size, address
+            return [packet(4, 0, [2, d[1], 1] + list(struct.pack('<I', 112)) + [0x0D, 0, 0, 0, 0, 0, 0, 0x42])]
+        if port == 4 and ch == 1 and self.ow:                    # read: id, addr, len -> id, addr, status, data
+            a, n = struct.unpack('<I', bytes(d[1:5]))[0], d[5]
+            return [packet(4, 1, d[:5] + [0] + self.ow[a:a + n])]
         if port == 2 and ch in (0, 3):
             return [self.par.answer(pk)]
         if port == 2 and ch == 1:                          # read
@@ -240,6 +246,17 @@ class Device:
         if port == 3 or port == 7:                         # setpoints (close_link sends one): no reply
             return []
         return []
+
+
+def _ow_image():
+    """A valid 1-wire deck memory: header 0xEB pins vid pid crc, then version, length, {id, len, bytes}*, crc."""
+    import zlib
+    hdr = list(struct.pack('<BIBB', 0xEB, 0x0000000C, 0xBC, 0x01))
+    hdr.append(zlib.crc32(bytes(hdr)) & 0xFF)
+    body = [1, 6] + list(b'bcDeck') + [2, 1] + list(b'A')
+    el = [0, len(body)] + body
+    el.append(zlib.crc32(bytes(el)) & 0xFF)
+    return hdr + el + [0xFF] * (112 - len(hdr) - len(el))
 
 
 class FakeDriver(CRTPDriver):
